@@ -165,7 +165,7 @@ impl<F: PoseidonField> VarLenPoseidonGadget<F> {
             )?;
             updating = ng.xor(layouter, &[b, updating])?;
 
-            register = if i == MAX_LEN / RATE {
+            register = if i == MAX_LEN / RATE - 1 {
                 // Constrain vector filler values in the last chunk.
                 let last_chunk = self.constrain_last_chunk(layouter, chunk, &last_chunk_len)?;
                 self.cond_update(layouter, &register, &last_chunk, &updating)?
